@@ -12,6 +12,11 @@ type mkey struct{ o, k int }
 // cov: dynamic coverage counters fed by the implementation-model run of every tree.
 var cov = map[string]int{}
 
+// devFired: the implementation-model run applied the commit rule of unloadContext to a callee
+// that completed normally while an exception was pending (the `dev` flag of Exec.spK; the two are
+// proved equal: Props/C04 impl_refines_specK). Reset by implRun.
+var devFired bool
+
 type flags struct{ r, w, c, n bool }
 
 func flagsOf(x int) flags { return flags{x&1 != 0, x&2 != 0, x&4 != 0, x&8 != 0} }
@@ -25,6 +30,18 @@ const (
 	policyTab = 102
 	mgmtTab   = 103
 	blockTab  = 104
+	roleTab   = 105
+	wlTab     = 106
+	neoTab    = 101
+	neoHTab   = 111
+	rewardTab = 112
+	voteTab   = 113
+	candTab   = 114
+	votersTab = 115
+	pendTab   = 116
+	notaryTab = 117
+	notaryAcc = 12
+	minDeposit = 20000000
 	extAcc    = 8  // an account that is not a contract (so are 6 and 7)
 	senderAcc = 50 // the fee payer
 	maxFeePB  = 100000000
@@ -89,12 +106,46 @@ func (l *wnode) keys() map[mkey]bool {
 // ---- native methods ----
 
 type natOut struct {
-	ws  []wnode // newest first
-	evs []event
-	cb  int // -1: none
+	ws      []wnode // newest first
+	evs     []event
+	cb      int  // -1: none
+	cbAbort bool // the (native) payment callback panics
 }
 
-func natStep(n *Node, self int, f flags, view func(mkey) (int, bool)) *natOut {
+type viewFn func(mkey) (int, bool)
+
+func alive(view viewFn, c int) bool {
+	if c >= numContracts {
+		return false
+	}
+	_, dead := view(mkey{mgmtTab, 100 + c})
+	return !dead
+}
+
+func present(view viewFn, k mkey) bool { _, ok := view(k); return ok }
+
+// neoTouch: first touch of a NEO account in the persisting block (newest first).
+func neoTouch(view viewFn, a int) []wnode {
+	if present(view, mkey{neoHTab, a}) {
+		return nil
+	}
+	r, _ := view(mkey{rewardTab, a})
+	var ws []wnode
+	if r != 0 {
+		ws = append(ws, wnode{k: mkey{pendTab, a}, v: r})
+	}
+	return append(ws, wnode{k: mkey{neoHTab, a}, v: 1})
+}
+
+func cat(parts ...[]wnode) []wnode {
+	var res []wnode
+	for _, p := range parts {
+		res = append(res, p...)
+	}
+	return res
+}
+
+func natStep(n *Node, self int, f flags, view viewFn) *natOut {
 	switch n.Nat.Kind {
 	case natTransfer:
 		if !(f.r && f.w && f.c && f.n) {
@@ -114,7 +165,18 @@ func natStep(n *Node, self int, f flags, view func(mkey) (int, bool)) *natOut {
 			out.ws = []wnode{{k: mkey{tab, n.Nat.To}, v: tb + n.Nat.Amt}, {k: mkey{tab, self}, v: bal - n.Nat.Amt}}
 		}
 		out.evs = []event{{tab, n.Nat.Amt}}
-		if n.Nat.To < numContracts {
+		if n.Nat.To == notaryAcc {
+			out.cb = notaryAcc
+			if d, ok := view(mkey{notaryTab, self}); ok {
+				out.ws = append([]wnode{{k: mkey{notaryTab, self}, v: d + n.Nat.Amt}}, out.ws...)
+			} else if n.Nat.Amt < minDeposit {
+				out.cbAbort = true
+			} else {
+				out.ws = append([]wnode{{k: mkey{notaryTab, self}, v: n.Nat.Amt}}, out.ws...)
+			}
+			return out
+		}
+		if n.Nat.To < numContracts && alive(view, n.Nat.To) {
 			out.cb = n.Nat.To
 		}
 		return out
@@ -126,7 +188,7 @@ func natStep(n *Node, self int, f flags, view func(mkey) (int, bool)) *natOut {
 			return nil
 		}
 		return &natOut{ws: []wnode{{k: mkey{policyTab, 0}, v: n.Nat.Val}}, cb: -1}
-	case natBlock:
+	case natBlockP:
 		if !(f.r && f.w && f.n) {
 			return nil
 		}
@@ -152,6 +214,162 @@ func natStep(n *Node, self int, f flags, view func(mkey) (int, bool)) *natOut {
 		id, _ := view(mkey{mgmtTab, 99})
 		return &natOut{ws: []wnode{{k: mkey{mgmtTab, 99}, v: id + 1}, {k: mkey{mgmtTab, n.Nat.Val}, v: id}},
 			evs: []event{{mgmtTab, n.Nat.Val}}, cb: -1}
+	case natUpdate:
+		if !(f.r && f.w && f.c && f.n) || !alive(view, self) {
+			return nil
+		}
+		cnt, _ := view(mkey{mgmtTab, 200 + self})
+		if present(view, mkey{wlTab, self}) {
+			return &natOut{ws: []wnode{{k: mkey{mgmtTab, 200 + self}, v: cnt + 1}, {k: mkey{wlTab, self}, del: true}},
+				evs: []event{{wlTab, self}, {mgmtTab, 200 + self}}, cb: -1}
+		}
+		return &natOut{ws: []wnode{{k: mkey{mgmtTab, 200 + self}, v: cnt + 1}}, evs: []event{{mgmtTab, 200 + self}}, cb: -1}
+	case natDestroy:
+		if !(f.r && f.w && f.n) || !alive(view, self) {
+			return nil
+		}
+		erase := []wnode{{k: mkey{mgmtTab, 100 + self}, v: 1}, {k: mkey{self, 3}, del: true}, {k: mkey{self, 2}, del: true},
+			{k: mkey{self, 1}, del: true}, {k: mkey{self, 0}, del: true}}
+		if present(view, mkey{wlTab, self}) {
+			return &natOut{ws: cat(erase, []wnode{{k: mkey{wlTab, self}, del: true}, {k: mkey{blockTab, self}, v: 1}}),
+				evs: []event{{wlTab, self}, {mgmtTab, 100 + self}}, cb: -1}
+		}
+		return &natOut{ws: cat(erase, []wnode{{k: mkey{blockTab, self}, v: 1}}), evs: []event{{mgmtTab, 100 + self}}, cb: -1}
+	case natDesignate:
+		if !(f.r && f.w && f.n) || present(view, mkey{roleTab, n.Nat.To}) {
+			return nil
+		}
+		return &natOut{ws: []wnode{{k: mkey{roleTab, n.Nat.To}, v: n.Nat.Val}}, evs: []event{{roleTab, n.Nat.To}}, cb: -1}
+	case natSetWl:
+		if !(f.r && f.w && f.n) || !alive(view, n.Nat.To) {
+			return nil
+		}
+		return &natOut{ws: []wnode{{k: mkey{wlTab, n.Nat.To}, v: n.Nat.Val}}, evs: []event{{wlTab, n.Nat.To}}, cb: -1}
+	case natDelWl:
+		if !(f.r && f.w && f.n) || !alive(view, n.Nat.To) || !present(view, mkey{wlTab, n.Nat.To}) {
+			return nil
+		}
+		return &natOut{ws: []wnode{{k: mkey{wlTab, n.Nat.To}, del: true}}, evs: []event{{wlTab, n.Nat.To}}, cb: -1}
+	case natNeoXferP:
+		if !(f.r && f.w && f.c && f.n) {
+			return nil
+		}
+		if self == entryID {
+			return &natOut{cb: -1}
+		}
+		to, amt := n.Nat.To, n.Nat.Amt
+		cb := -1
+		if to < numContracts && alive(view, to) {
+			cb = to
+		}
+		bal, has := view(mkey{neoTab, self})
+		if !has {
+			if amt == 0 {
+				return &natOut{evs: []event{{neoTab, 0}}, cb: cb}
+			}
+			return &natOut{cb: -1}
+		}
+		if bal < amt {
+			return &natOut{cb: -1}
+		}
+		touchF := neoTouch(view, self)
+		if self == to || amt == 0 {
+			return &natOut{ws: touchF, evs: []event{{neoTab, amt}}, cb: cb}
+		}
+		voting := present(view, mkey{voteTab, self})
+		voters, _ := view(mkey{votersTab, 0})
+		cand, _ := view(mkey{candTab, 0})
+		var votesF []wnode
+		if voting {
+			votesF = []wnode{{k: mkey{votersTab, 0}, v: voters - amt}, {k: mkey{candTab, 0}, v: cand - amt}}
+			voters, cand = voters-amt, cand-amt
+		}
+		var balF []wnode
+		if bal == amt {
+			balF = []wnode{{k: mkey{voteTab, self}, del: true}, {k: mkey{neoHTab, self}, del: true}, {k: mkey{neoTab, self}, del: true}}
+		} else {
+			balF = []wnode{{k: mkey{neoTab, self}, v: bal - amt}}
+		}
+		var toW []wnode
+		if tb, ok := view(mkey{neoTab, to}); !ok {
+			toW = []wnode{{k: mkey{neoTab, to}, v: amt}, {k: mkey{neoHTab, to}, v: 1}}
+		} else {
+			toW = []wnode{{k: mkey{neoTab, to}, v: tb + amt}}
+			if present(view, mkey{voteTab, to}) {
+				toW = append(toW, wnode{k: mkey{votersTab, 0}, v: voters + amt}, wnode{k: mkey{candTab, 0}, v: cand + amt})
+			}
+			toW = append(toW, neoTouch(view, to)...)
+		}
+		return &natOut{ws: cat(toW, balF, votesF, touchF), evs: []event{{neoTab, amt}}, cb: cb}
+	case natVoteP:
+		if !(f.r && f.w && f.n) {
+			return nil
+		}
+		if self == entryID {
+			return &natOut{cb: -1}
+		}
+		bal, has := view(mkey{neoTab, self})
+		if !has {
+			return &natOut{cb: -1}
+		}
+		on := n.Nat.Val != 0
+		old := present(view, mkey{voteTab, self})
+		voters, _ := view(mkey{votersTab, 0})
+		cand, _ := view(mkey{candTab, 0})
+		var wVoters, wCand, wVote []wnode
+		if old != on {
+			if on {
+				wVoters = []wnode{{k: mkey{votersTab, 0}, v: voters + bal}}
+				wCand = []wnode{{k: mkey{candTab, 0}, v: cand + bal}}
+			} else {
+				wVoters = []wnode{{k: mkey{votersTab, 0}, v: voters - bal}}
+				wCand = []wnode{{k: mkey{candTab, 0}, v: cand - bal}}
+			}
+		}
+		if on {
+			wVote = []wnode{{k: mkey{voteTab, self}, v: 1}}
+		} else {
+			wVote = []wnode{{k: mkey{voteTab, self}, del: true}}
+		}
+		return &natOut{ws: cat(wVote, wCand, neoTouch(view, self), wVoters), evs: []event{{voteTab, self}}, cb: -1}
+	case natRevoke:
+		if !(f.r && f.w && f.n) {
+			return nil
+		}
+		a := n.Nat.Val
+		if present(view, mkey{blockTab, a}) {
+			return &natOut{cb: -1}
+		}
+		bal, has := view(mkey{neoTab, a})
+		if !has {
+			return &natOut{cb: -1}
+		}
+		var wVoters, wCand []wnode
+		if present(view, mkey{voteTab, a}) {
+			voters, _ := view(mkey{votersTab, 0})
+			cand, _ := view(mkey{candTab, 0})
+			wVoters = []wnode{{k: mkey{votersTab, 0}, v: voters - bal}}
+			wCand = []wnode{{k: mkey{candTab, 0}, v: cand - bal}}
+		}
+		return &natOut{ws: cat([]wnode{{k: mkey{voteTab, a}, del: true}}, wCand, neoTouch(view, a), wVoters), evs: []event{{voteTab, a}}, cb: -1}
+	case natMint:
+		if !(f.r && f.w && f.n) {
+			return nil
+		}
+		a := n.Nat.Val
+		if a == 99 {
+			a = self
+		}
+		r, ok := view(mkey{pendTab, a})
+		if !ok {
+			return &natOut{cb: -1}
+		}
+		g, _ := view(mkey{gasTab, a})
+		out := &natOut{ws: []wnode{{k: mkey{gasTab, a}, v: g + r}, {k: mkey{pendTab, a}, del: true}}, evs: []event{{gasTab, r}}, cb: -1}
+		if alive(view, a) {
+			out.cb = a
+		}
+		return out
 	}
 	panic("bad native op")
 }
@@ -161,6 +379,32 @@ func applyWrites(l *wnode, ws []wnode) *wnode {
 		l = &wnode{k: ws[i].k, v: ws[i].v, del: ws[i].del, next: l}
 	}
 	return l
+}
+
+// expand desugars the NEO methods into the native steps the model knows: the method proper, then
+// the deferred GAS minting (GAS.MintDeferrable with onNEP17Payment(null, amount, null)) for the
+// sender and for the receiver. Exactly what Driver/Exec.lean does with `E` and `O`.
+func expand(n *Node) []*Node {
+	switch n.Nat.Kind {
+	case natNeoTransfer:
+		return []*Node{
+			{Op: nNative, Fl: n.Fl, Nat: &NatOp{Kind: natNeoXferP, To: n.Nat.To, Amt: n.Nat.Amt, HasCb: n.Nat.HasCb, Cb: n.Nat.Cb}},
+			{Op: nNative, Fl: n.Fl, Nat: &NatOp{Kind: natMint, Val: 99}},
+			{Op: nNative, Fl: n.Fl, Nat: &NatOp{Kind: natMint, Val: n.Nat.To}},
+		}
+	case natBlock:
+		return []*Node{
+			{Op: nNative, Fl: n.Fl, Nat: &NatOp{Kind: natRevoke, Val: n.Nat.Val}},
+			{Op: nNative, Fl: n.Fl, Nat: &NatOp{Kind: natMint, Val: n.Nat.Val}},
+			{Op: nNative, Fl: n.Fl, Nat: &NatOp{Kind: natBlockP, Val: n.Nat.Val}},
+		}
+	case natVote:
+		return []*Node{
+			{Op: nNative, Fl: n.Fl, Nat: &NatOp{Kind: natVoteP, Val: n.Nat.Val}},
+			{Op: nNative, Fl: n.Fl, Nat: &NatOp{Kind: natMint, Val: 99}},
+		}
+	}
+	return nil
 }
 
 func cbBody(n *Node) []*Node {
@@ -220,13 +464,13 @@ func spFinExc(fin []*Node, c int, f flags, s sst) (resKind, sst) {
 func spNode(n *Node, c int, f flags, s sst) (resKind, sst) {
 	switch n.Op {
 	case nPut:
-		if f.r && f.w && c != entryID {
+		if f.r && f.w && alive(s.st.get, c) {
 			s.st = s.st.set(mkey{c, n.K}, n.V)
 			return rNorm, s
 		}
 		return rFault, s
 	case nDel:
-		if f.r && f.w && c != entryID {
+		if f.r && f.w && alive(s.st.get, c) {
 			s.st = s.st.delete(mkey{c, n.K})
 			return rNorm, s
 		}
@@ -238,7 +482,7 @@ func spNode(n *Node, c int, f flags, s sst) (resKind, sst) {
 		}
 		return rFault, s
 	case nIf:
-		if f.r && c != entryID {
+		if f.r && alive(s.st.get, c) {
 			if _, ok := s.st.get(mkey{c, n.K}); ok {
 				return spList(n.Body, c, f, s)
 			}
@@ -246,7 +490,7 @@ func spNode(n *Node, c int, f flags, s sst) (resKind, sst) {
 		}
 		return rFault, s
 	case nCall:
-		if !(f.r && f.c) {
+		if !(f.r && f.c && alive(s.st.get, n.C)) {
 			return rFault, s
 		}
 		k, s1 := spList(n.Body, n.C, f.and(flagsOf(n.Fl)), s)
@@ -292,6 +536,9 @@ func spNode(n *Node, c int, f flags, s sst) (resKind, sst) {
 	case nAbort:
 		return rFault, s
 	case nNative:
+		if ex := expand(n); ex != nil {
+			return spList(ex, c, f, s)
+		}
 		if !(f.r && f.c) {
 			return rFault, s
 		}
@@ -304,6 +551,9 @@ func spNode(n *Node, c int, f flags, s sst) (resKind, sst) {
 		s.ev = evAppend(s.ev, out.evs...)
 		if out.cb < 0 {
 			return rNorm, s
+		}
+		if out.cbAbort {
+			return rFault, s
 		}
 		k, s2 := spList(cbBody(n), out.cb, f1, s)
 		if k == rNorm {
@@ -444,13 +694,13 @@ func imFinExc(h bool, fin []*Node, x ictx, s ist) (resKind, ist) {
 func imNode(n *Node, x ictx, s ist) (resKind, ist) {
 	switch n.Op {
 	case nPut:
-		if x.f.r && x.f.w && x.c != entryID {
+		if x.f.r && x.f.w && alive(s.view, x.c) {
 			s.top = s.top.set(mkey{x.c, n.K}, n.V)
 			return rNorm, s
 		}
 		return rFault, s
 	case nDel:
-		if x.f.r && x.f.w && x.c != entryID {
+		if x.f.r && x.f.w && alive(s.view, x.c) {
 			s.top = s.top.delete(mkey{x.c, n.K})
 			return rNorm, s
 		}
@@ -462,7 +712,7 @@ func imNode(n *Node, x ictx, s ist) (resKind, ist) {
 		}
 		return rFault, s
 	case nIf:
-		if x.f.r && x.c != entryID {
+		if x.f.r && alive(s.view, x.c) {
 			if _, ok := s.view(mkey{x.c, n.K}); ok {
 				return imList(n.Body, x, s)
 			}
@@ -470,7 +720,7 @@ func imNode(n *Node, x ictx, s ist) (resKind, ist) {
 		}
 		return rFault, s
 	case nCall:
-		if !(x.f.r && x.f.c) {
+		if !(x.f.r && x.f.c && alive(s.view, n.C)) {
 			return rFault, s
 		}
 		f1 := x.f.and(flagsOf(n.Fl))
@@ -488,6 +738,7 @@ func imNode(n *Node, x ictx, s ist) (resKind, ist) {
 		case wrapped && k == rThrown:
 			cov["dyn:wrapped-call-thrown-dropped"]++
 		case wrapped && s1.exc:
+			devFired = true
 			cov["dyn:wrapped-call-returned-during-exception-dropped"]++
 		case wrapped:
 			cov["dyn:wrapped-call-committed"]++
@@ -543,6 +794,9 @@ func imNode(n *Node, x ictx, s ist) (resKind, ist) {
 	case nAbort:
 		return rFault, s
 	case nNative:
+		if ex := expand(n); ex != nil {
+			return imList(ex, x, s)
+		}
 		if !(x.f.r && x.f.c) {
 			return rFault, s
 		}
@@ -568,9 +822,18 @@ func imNode(n *Node, x ictx, s ist) (resKind, ist) {
 			}
 		}
 		if out.cb < 0 {
+			if wrapped && s1.exc {
+				devFired = true
+			}
 			return rNorm, s1.unload(wrapped, base)
 		}
+		if out.cbAbort {
+			return rFault, s1
+		}
 		k, s2 := imList(cbBody(n), ictx{out.cb, f1, false, x.h}, s1)
+		if k == rNorm && s2.exc {
+			devFired = true
+		}
 		if k == rNorm && !s2.exc {
 			cov["dyn:payment-callback-returned"]++
 			return rNorm, s2.unload(wrapped, base)
@@ -584,6 +847,7 @@ func imNode(n *Node, x ictx, s ist) (resKind, ist) {
 }
 
 func implRun(pre *wnode, t []*Node) outcome {
+	devFired = false
 	k, s := imList(t, ictx{entryID, flagsOf(15), false, false}, ist{below: []*wnode{pre}})
 	if k == rNorm {
 		return outcome{true, concat(s.top, pre), s.ev, s.ev}
